@@ -29,7 +29,8 @@ def nul_in_names(s):
     """a NUL byte in a line that names a file: the program hands the name to the system as a C string (cut at the NUL), the
     model keeps the byte - outside the model's domain (and outside what C12 quantifies over)"""
     t = s["tree"]["p.diff"][2] if "p.diff" in s.get("tree", {}) else (s.get("stdin") or b"")
-    return bool(NAME_LINE.search(t))
+    # (the content of a section becomes a name when a later section of the stream makes a symbolic link out of it)
+    return bool(NAME_LINE.search(t)) or (b"\x00" in t and b" 120000" in t)
 
 
 def l2_family(run_, exe, scns, judge, cls=None, compare=True, label="L2", **kw):
